@@ -36,6 +36,7 @@ def handle (line : String) : String :=
       | "PGR" => some handlePGR
       | "TRG" => some handleTRG
       | "PGD" => some handlePGD
+      | "HUNT" => some (fun ts => some (s!"ok hunt cases={ts.getD 1 "?"} suspicious={ts.getD 2 "?"}", []))
       | "E2E" => (match ts.head? with
           | some "S" => some (fun ts => handleE2E strE2E (ts.drop 1))
           | some "M" => some (fun ts => handleE2E matE2E (ts.drop 1))
